@@ -507,6 +507,22 @@ func init() {
 							okSearch = true
 						}
 					}
+				case *ast.RangeStmt:
+					// for _, t := range tables[found:] { if !t.RangeContainsPrefix(prefix) { break } ... }
+					if se, isSlice := ast.Unparen(x.X).(*ast.SliceExpr); isSlice && se.Low != nil && se.High == nil {
+						for _, st := range x.Body.List {
+							if is, ok := st.(*ast.IfStmt); ok && r.exprCalls(info, is.Cond, rcp) && len(is.Body.List) > 0 {
+								switch t := is.Body.List[len(is.Body.List)-1].(type) {
+								case *ast.BranchStmt:
+									if t.Tok == token.BREAK {
+										okWalk = true
+									}
+								case *ast.ReturnStmt:
+									okWalk = true
+								}
+							}
+						}
+					}
 				case *ast.ForStmt:
 					inc, isInc := x.Post.(*ast.IncDecStmt)
 					if !isInc || inc.Tok != token.INC {
@@ -578,6 +594,12 @@ func (r *Run) checkKeepsHighestSeq(f *prog.FuncInfo, l loopInfo) {
 	inspect(f.Decl.Body, func(nd ast.Node) bool {
 		if ret, ok := nd.(*ast.ReturnStmt); ok && ret.Pos() > l.Stmt.End() && len(ret.Results) > 0 && prog.IdentObj(info, ret.Results[0]) == best {
 			returned = true
+		}
+		// the running result is the function's first named result, handed back by a bare return
+		if ret, ok := nd.(*ast.ReturnStmt); ok && ret.Pos() > l.Stmt.End() && len(ret.Results) == 0 {
+			if rl := f.Decl.Type.Results; rl != nil && len(rl.List) > 0 && len(rl.List[0].Names) > 0 && info.Defs[rl.List[0].Names[0]] == best {
+				returned = true
+			}
 		}
 		return true
 	})
@@ -941,24 +963,63 @@ func (r *Run) checkSearchPolarity(f *prog.FuncInfo, loop *ast.ForStmt, lowObj, h
 		})
 		return found
 	}
-	type effect struct{ low, high, ret, undecided bool }
+	type effect struct {
+		low, high, ret, undecided bool
+		mark                      types.Object // a boolean set to true on this path ("found")
+	}
+	// returnsMark: after the loop the function returns the variable m (by name, or as a named
+	// result through a bare return)
+	returnsMark := func(m types.Object) bool {
+		ok := false
+		inspect(f.Decl.Body, func(nd ast.Node) bool {
+			ret, isRet := nd.(*ast.ReturnStmt)
+			if !isRet || ret.Pos() < loop.End() {
+				return true
+			}
+			for _, res := range ret.Results {
+				if prog.IdentObjPlain(info, res) == m {
+					ok = true
+				}
+			}
+			if len(ret.Results) == 0 && f.Decl.Type.Results != nil {
+				for _, fld := range f.Decl.Type.Results.List {
+					for _, n := range fld.Names {
+						if info.Defs[n] == m {
+							ok = true
+						}
+					}
+				}
+			}
+			return true
+		})
+		return ok
+	}
 	var run func(list []ast.Stmt, sign int, ef *effect) (stopped bool)
 	run = func(list []ast.Stmt, sign int, ef *effect) bool {
 		for _, st := range list {
 			switch x := st.(type) {
 			case *ast.AssignStmt:
-				for _, l := range x.Lhs {
+				for i, l := range x.Lhs {
 					switch prog.IdentObj(info, l) {
 					case lowObj:
 						ef.low = true
 					case highObj:
 						ef.high = true
 					}
+					if len(x.Rhs) == len(x.Lhs) {
+						if tv, has := info.Types[x.Rhs[i]]; has && tv.Value != nil && tv.Value.String() == "true" {
+							ef.mark = prog.IdentObjPlain(info, l)
+						}
+					}
 				}
 			case *ast.ReturnStmt:
 				ef.ret = true
 				return true
 			case *ast.BranchStmt:
+				// `idx, found = i, true; break` with `return idx, found` after the loop is the return
+				if x.Tok == token.BREAK && x.Label == nil && ef.mark != nil && returnsMark(ef.mark) {
+					ef.ret = true
+				}
 				return true
 			case *ast.IfStmt:
 				if x.Init != nil {
